@@ -2,6 +2,7 @@ package rules
 
 import (
 	"fmt"
+	"regexp"
 	"strings"
 
 	"verifcheck/internal/ssaq"
@@ -22,9 +23,27 @@ type anchorSpec struct {
 	what    string // the behaviour the lemma protects
 }
 
+// matchPattern: exact text, "prefix*", or a pattern in which each "§" stands for
+// an arbitrary subexpression (a value the lemma does not constrain, e.g. the
+// limit variable, which may be a phi, a local or the result of a helper).
+func matchPattern(got, want string) bool {
+	if strings.Contains(want, "§") {
+		parts := strings.Split(want, "§")
+		for i := range parts {
+			parts[i] = regexp.QuoteMeta(parts[i])
+		}
+		re, err := regexp.Compile("^" + strings.Join(parts, ".+") + "$")
+		return err == nil && re.MatchString(got)
+	}
+	return matchArg(got, want)
+}
+
 func matchArg(got, want string) bool {
 	if want == "" {
 		return true
+	}
+	if strings.Contains(want, "§") {
+		return matchPattern(got, want)
 	}
 	if strings.HasSuffix(want, "*") {
 		return strings.HasPrefix(got, strings.TrimSuffix(want, "*"))
@@ -32,10 +51,64 @@ func matchArg(got, want string) bool {
 	return got == want
 }
 
+// evalSpec compares one anchor with a spec; the result lists what differs.
+func evalSpec(a *ssaq.Anchor, s anchorSpec) []string {
+	var bad []string
+	for i, w := range s.args {
+		if i >= len(a.Args) || !matchArg(a.Args[i], w) {
+			got := "<missing>"
+			if i < len(a.Args) {
+				got = a.Args[i]
+			}
+			bad = append(bad, fmt.Sprintf("argument %d is %s, lemma needs %s", i, got, w))
+		}
+	}
+	have := map[string]bool{}
+	for _, at := range a.Atoms {
+		have[at] = true
+	}
+	for _, w := range s.atoms {
+		found := have[w]
+		if !found && strings.Contains(w, "§") {
+			for at := range have {
+				if matchPattern(at, w) {
+					found = true
+				}
+			}
+		}
+		if !found && strings.HasSuffix(w, "*") {
+			for at := range have {
+				if strings.HasPrefix(at, strings.TrimSuffix(w, "*")) {
+					found = true
+				}
+			}
+		}
+		if !found {
+			bad = append(bad, "missing dominating condition "+w)
+		}
+	}
+	return bad
+}
+
+// ruleAnchorSpecs: each lemma names its call by callee and ordinal, but the
+// ordinal is only the first guess: when the call with that ordinal does not
+// satisfy the lemma (calls were added, removed or reordered around it), any
+// other call of the same callee in the function that satisfies the lemma and is
+// not already the witness of another lemma is accepted. A lemma fails only when
+// no call of the callee has the confirmed arguments under the confirmed
+// conditions.
 func ruleAnchorSpecs(ctx *Ctx, rule string, specs []anchorSpec) {
 	q := ssaq.For(ctx.Prog)
 	r := ctx.Rep
 	cache := map[string][]ssaq.Anchor{}
+	claimed := map[*ssaq.Anchor]bool{}
+	type pending struct {
+		s   anchorSpec
+		key string
+		ord *ssaq.Anchor
+		bad []string
+	}
+	var rest []pending
 	for _, s := range specs {
 		f := q.Func(s.fn)
 		if f == nil {
@@ -55,42 +128,37 @@ func ruleAnchorSpecs(ctx *Ctx, rule string, specs []anchorSpec) {
 				a = &as[i]
 			}
 		}
-		if a == nil {
-			r.Violation(rule, key, q.Pos(f.Pos()), fmt.Sprintf("the call %s #%d that this lemma is about no longer exists in %s", s.callee, s.ordinal, s.fn))
+		if a != nil {
+			bad := evalSpec(a, s)
+			if len(bad) == 0 && !claimed[a] {
+				claimed[a] = true
+				r.Ok(rule, key, q.Pos(ssaq.InstrPos(a.Instr)), "arguments and dominating conditions as confirmed")
+				continue
+			}
+			rest = append(rest, pending{s, key, a, bad})
 			continue
 		}
-		pos := q.Pos(ssaq.InstrPos(a.Instr))
-		var bad []string
-		for i, w := range s.args {
-			if i >= len(a.Args) || !matchArg(a.Args[i], w) {
-				got := "<missing>"
-				if i < len(a.Args) {
-					got = a.Args[i]
-				}
-				bad = append(bad, fmt.Sprintf("argument %d is %s, lemma needs %s", i, got, w))
+		rest = append(rest, pending{s, key, nil, nil})
+	}
+	for _, p := range rest {
+		s := p.s
+		f := q.Func(s.fn)
+		as := cache[s.fn]
+		var alt *ssaq.Anchor
+		for i := range as {
+			if as[i].Callee == s.callee && !claimed[&as[i]] && len(evalSpec(&as[i], s)) == 0 {
+				alt = &as[i]
+				break
 			}
 		}
-		have := map[string]bool{}
-		for _, at := range a.Atoms {
-			have[at] = true
-		}
-		for _, w := range s.atoms {
-			found := have[w]
-			if !found && strings.HasSuffix(w, "*") {
-				for at := range have {
-					if strings.HasPrefix(at, strings.TrimSuffix(w, "*")) {
-						found = true
-					}
-				}
-			}
-			if !found {
-				bad = append(bad, "missing dominating condition "+w)
-			}
-		}
-		if len(bad) > 0 {
-			r.Violation(rule, key, pos, strings.Join(bad, "; ")+" (established: "+strings.Join(a.Atoms, " && ")+")")
-		} else {
-			r.Ok(rule, key, pos, "arguments and dominating conditions as confirmed")
+		switch {
+		case alt != nil:
+			claimed[alt] = true
+			r.Ok(rule, p.key, q.Pos(ssaq.InstrPos(alt.Instr)), fmt.Sprintf("arguments and dominating conditions as confirmed (the call is now #%d of its callee in the function)", alt.Ordinal))
+		case p.ord == nil:
+			r.Violation(rule, p.key, q.Pos(f.Pos()), fmt.Sprintf("the call %s #%d that this lemma is about no longer exists in %s, and no other call of it satisfies the lemma", s.callee, s.ordinal, s.fn))
+		default:
+			r.Violation(rule, p.key, q.Pos(ssaq.InstrPos(p.ord.Instr)), strings.Join(p.bad, "; ")+" (established: "+strings.Join(p.ord.Atoms, " && ")+")")
 		}
 	}
 }
